@@ -470,6 +470,31 @@ def collected (txAttrs assigned : List String) (contained : Bool) (extras : List
 def kwargs (txAttrs : List String) (coll : List String) : List String :=
   coll.filter fun k => txAttrs.contains k || k == "parent"
 
+/-- `delattr` on the collecting dict (the instrumented `__delattr__` pops the name) -/
+def del (k : String) (d : List String) : List String := d.filter fun x => x != k
+
+/-- what user code (callback, scope provider, model processor of an imported file, the
+constructor of another object) does to an object that is still under construction -/
+inductive Op where
+  | set (k : String)
+  | del (k : String)
+deriving DecidableEq, Repr
+
+def Op.apply : Op → List String → List String
+  | .set k, d => Kw.set k d
+  | .del k, d => Kw.del k d
+
+/-- the keys collected for an object after textX's own stores and the stores / deletions of user code -/
+def collectedOps (txAttrs assigned : List String) (contained : Bool) (extras : List String) (ops : List Op) :
+    List String :=
+  ops.foldl (fun d o => o.apply d) (collected txAttrs assigned contained extras)
+
+/-- what user code may do without changing the constructor arguments: store anything
+(but no `parent` on an object that has none), delete anything but grammar attributes and `parent` -/
+def Op.harmless (txAttrs : List String) (contained : Bool) : Op → Prop
+  | .set k => k = "parent" → contained = true
+  | .del k => k ∉ txAttrs ∧ k ≠ "parent"
+
 end Kw
 
 end LoadTree
